@@ -1304,6 +1304,7 @@ impl BufferParser for Parser {
                             1
                         };
                         let ch = AttributedChar::new(self.last_char, caret.get_attribute());
+                        let num = min(num, buf.terminal_state.get_width().saturating_mul(buf.terminal_state.get_height()));
                         (0..num).for_each(|_| buf.print_char(current_layer, caret, ch));
                         return Ok(CallbackAction::Update);
                     }
